@@ -65,7 +65,8 @@ StepEv ==
 \* (acceptance crosses 1/2 between the previous candidate and this one)
 HeurEv ==
   /\ l <= Len(Rec) /\ Rec[l].e = "heur"
-  /\ Rec[l].pos_finite /\ PowerOfTwo(Fx12(Rec[l].eps)) /\ Rec[l].exit_ok /\ Rec[l].prev_continues
+  /\ Rec[l].pos_finite /\ PowerOfTwo(Fx12(Rec[l].eps))
+  /\ StartValueOk(Rec[l].a_one, Rec[l].a_eps, Rec[l].a_half, Rec[l].a_twice, Rec[l].eps, Rec[l].slack)
   /\ UNCHANGED <<m, nd, le, leb, hb, mu, delta, first, ka>> /\ l' = l + 1
 
 \* a chain of the multi-chain front end after its first run() / run_progress() call: its shrinkage point is ln(10 eps0) of
